@@ -233,16 +233,6 @@ theorem parseCmds_inTxn_safe (cfg : PCfg) (cs rest : List Cmd) (st : PState)
     rw [h2]
     simp only [List.flatMap_cons, List.append_assoc]
 
-/-- outcome of the parser on one block, started idle -/
-inductive BlockOut (cfg : PCfg) (st : PState) (b : Block) : Prop where
-  /-- nothing comes out, the parser goes on -/
-  | quiet (st' : PState) (h : parseBlock cfg st b = ([], st', none)) (hi : Idle st') (hseq : st'.seq = st.seq)
-  /-- exactly one unit holding `cmds` comes out -/
-  | emit (st' : PState) (e : Emit) (h : parseBlock cfg st b = ([e], st', none)) (hi : Idle st')
-      (hseq : st'.seq = st.seq + 1) (heseq : e.seq = st.seq)
-  /-- the parser stops with a build error -/
-  | stop (st' : PState) (e : BuildErr) (h : parseBlock cfg st b = ([], st', some (.build e)))
-
 /-- what the parser does with a whole `MULTI … EXEC` block of safe commands,
     starting idle: the buffer it tests at EXEC is the filtered body -/
 theorem parseBlock_multi_safe (cfg : PCfg) (cs : List Cmd) (st : PState) (hi : Idle st)
